@@ -6,13 +6,13 @@ from vf import core, lib, pred, ref, spaces
 PID = "C16"
 LEVEL = "exploration"
 REL = 1e-9
-RULE = ("rate: every game x weak order of S2, P2, P3, T3, T4|V4 under K0, rescaled by k in {1e-3, 0.5, 3, 1e3} (mu, sigma and the "
+RULE = ("rate: every game x weak order of S2, P2, P3, T3, T4|V4 under K0, rescaled by k in {1e-3, 0.5, 3, 1e3, 2^-30, 2^30} (mu, sigma and the "
         "model's mu, sigma, beta, tau; kappa not) for PL / BT-full / BT-part, and shifted by {-5b, 0.1b, 7b} on the sub-space of "
         "equal team sizes for all five classes; predictions: G2, G3|V12, G4|V6 under the same scalings and shifts, all five "
         "classes, 1e-12; non-trivial = transformed game differs from the original and the posterior differs from the prior")
 ASSUMPTIONS = ["R4 tolerance; Thurstone-Mosteller shift comparison additionally allows the reference-interval width (DESIGN §8 I2)",
                "shifted games leaving the 20*beta domain are dropped (counted)"]
-SCALES = [1e-3, 0.5, 3.0, 1e3]
+SCALES = [1e-3, 0.5, 3.0, 1e3, 2.0 ** -30, 2.0 ** 30]  # the last two: far outside the decades the quantifier names, exact in binary (any absolute threshold on a squared skill quantity shows)
 SHIFTS = [-5.0, 0.1, 7.0]
 
 
